@@ -166,9 +166,10 @@ _WORLD_CACHE = {}
 class World:
   """Reference (unsharded, unpadded) and sharded (mesh + padded) twins."""
 
-  def __init__(self, cfg):
+  def __init__(self, cfg, mesh_factory=None):
     self.cfg = cfg
-    self.mesh = gen.make_mesh(cfg['mesh']) if cfg['mesh'] else None
+    mesh_factory = mesh_factory or gen.make_mesh
+    self.mesh = mesh_factory(cfg['mesh']) if cfg['mesh'] else None
     self.grid_ref = gen.build_grid(cfg['grid'], gen.REF_IMPL)
     self.grid_sh = gen.build_grid(cfg['grid'], gen.fast_impl(cfg['knobs']),
                                   mesh=self.mesh)
@@ -208,14 +209,15 @@ class World:
                vertical_matmul_method=method)
 
 
-def get_world(cfg) -> World:
-  key = kernel.sha({k: cfg[k] for k in ('mesh', 'grid', 'knobs', 'layers', 'sigma',
-                                         'tref', 'oro', 'state_seed')})
+def get_world(cfg, mesh_factory=None) -> World:
+  key = kernel.sha([{k: cfg[k] for k in ('mesh', 'grid', 'knobs', 'layers', 'sigma',
+                                          'tref', 'oro', 'state_seed')},
+                    getattr(mesh_factory, '__name__', None)])
   w = _WORLD_CACHE.get(key)
   if w is None:
     if len(_WORLD_CACHE) > 6:
       _WORLD_CACHE.clear()
-    w = _WORLD_CACHE[key] = World(cfg)
+    w = _WORLD_CACHE[key] = World(cfg, mesh_factory)
   return w
 
 
